@@ -112,6 +112,7 @@ func guardedByNil(v ssa.Value, b *ssa.BasicBlock) bool {
 func runC18(c *Ctx, r *Report) {
 	r.Rule("C18.R1", "in repl.AutoSave the state file is named only as the destination of os.Rename(tmp, AutoSaveFile); tmp is the name of the file returned by os.CreateTemp(\".\", ...) (same directory); the rename is dominated by the err==nil edges of CreateTemp and of the write (SaveGlobals); the writer handed to SaveGlobals is that file itself (unbuffered) or a bufio.Writer on it whose checked Flush dominates the rename")
 	r.Rule("C18.R2", "no function reachable from AutoSave (static calls + interface invokes, module code) other than AutoSave's own CreateTemp/Rename calls a file-system mutator or starts a process")
+	r.Rule("C18.R4", "the write error is not masked: in AutoSave, State.SaveGlobals and Environment.SaveGlobals a deferred closure stores into a captured error result only under `result == nil`")
 	r.Rule("C18.R3", "after the rename no further file mutation happens in AutoSave; no file-mutating call precedes CreateTemp")
 
 	autoSave := c.Fn("repl", "AutoSave")
@@ -263,6 +264,68 @@ func runC18(c *Ctx, r *Report) {
 		if !viol {
 			r.Ok("C18.R2", ssaFuncName(f), "no file-system mutator", c.Pos(f.Pos()))
 		}
+	}
+	// R4: the write error reaches AutoSave: along the chain AutoSave -> State.SaveGlobals -> Environment.SaveGlobals
+	// no deferred function overwrites an error result unconditionally
+	{
+		errT := types.Universe.Lookup("error").Type()
+		chain := []*ssa.Function{fn, c.SSAFn(saveGlobalsState), c.SSAFn(saveGlobalsEnv)}
+		n4 := 0
+		for _, f := range chain {
+			// closures deferred by f that store into a variable of type error captured from f
+			found := false
+			eachInstr(f, func(in ssa.Instruction) {
+				d, ok := in.(*ssa.Defer)
+				if !ok {
+					return
+				}
+				mc, ok := d.Call.Value.(*ssa.MakeClosure)
+				if !ok {
+					return
+				}
+				cf, ok := mc.Fn.(*ssa.Function)
+				if !ok {
+					return
+				}
+				for i, fv := range cf.FreeVars {
+					pt, ok := fv.Type().(*types.Pointer)
+					if !ok || !types.Identical(pt.Elem(), errT) {
+						continue
+					}
+					_ = i
+					for _, ref := range *fv.Referrers() {
+						st, ok := ref.(*ssa.Store)
+						if !ok || st.Addr != ssa.Value(fv) {
+							continue
+						}
+						found = true
+						n4++
+						// the store must be under `*fv == nil`
+						guarded := false
+						for _, cc := range controlling(st.Block()) {
+							bin, ok := cc.Cond.(*ssa.BinOp)
+							if !ok {
+								continue
+							}
+							ld, ok := bin.X.(*ssa.UnOp)
+							if !ok || ld.X != ssa.Value(fv) || !isNilConst(bin.Y) {
+								continue
+							}
+							if (bin.Op == token.EQL && cc.Edge == 0) || (bin.Op == token.NEQ && cc.Edge == 1) {
+								guarded = true
+							}
+						}
+						r.Check(guarded, "C18.R4", ssaFuncName(f), "a deferred function assigns the error result only when it is still nil", c.Pos(st.Pos()),
+							"a deferred closure overwrites the function's error result unconditionally: a failed write (disk full, quota) is replaced by the outcome of the deferred call (a nil from Sync/Close), AutoSave sees success and renames the truncated temporary file over the previous state")
+					}
+				}
+			})
+			if !found {
+				n4++
+				r.Ok("C18.R4", ssaFuncName(f), "no deferred function touches the error result", c.Pos(f.Pos()))
+			}
+		}
+		r.Floor("C18.R4", 3)
 	}
 	r.Floor("C18.R1", 8)
 	r.Floor("C18.R2", 20)
